@@ -299,3 +299,93 @@ Proof. vm_compute. reflexivity. Qed.
 (* the bit-pattern round trip on the sweep (independent of the structural proof above) *)
 Lemma bits_sweep : forallb (fun x => feqb (of_bits (to_bits x)) x && (to_bits (of_bits (to_bits x)) =? to_bits x)) sweep_inputs = true.
 Proof. vm_compute. reflexivity. Qed.
+
+(* ------------------------------------------------------------------ rounding to an integer gives an integer *)
+From Coq Require Import Zpower.
+
+Lemma digits2_shift : forall d p, digits2_pos (shift_pos d p) = (digits2_pos p + d)%positive.
+Proof.
+  intros d p. unfold shift_pos. induction d as [|d IH] using Pos.peano_ind.
+  - cbn. rewrite Pos.add_1_r. reflexivity.
+  - rewrite Pos.iter_succ. cbn [digits2_pos]. rewrite IH. rewrite Pos.add_succ_r. reflexivity.
+Qed.
+
+Lemma shr_exp_ge : forall mrs e n, e <= snd (shr mrs e n).
+Proof. intros mrs e n. destruct n; cbn; lia. Qed.
+
+Lemma round_aux_exp_ge : forall sx m e l,
+  match binary_round_aux prec emax sx m e l with
+  | S754_finite _ _ e'' => e <= e''
+  | _ => True
+  end.
+Proof.
+  intros sx m e l. unfold binary_round_aux, shr_fexp.
+  pose proof (shr_exp_ge (shr_record_of_loc m l) e (fexp prec emax (Zdigits2 m + e) - e)) as H1.
+  destruct (shr (shr_record_of_loc m l) e (fexp prec emax (Zdigits2 m + e) - e)) as [mrs' e'].
+  cbn [snd] in H1.
+  match goal with |- context [shr ?r e' ?n] => pose proof (shr_exp_ge r e' n) as H2; destruct (shr r e' n) as [mrs'' e''] end.
+  cbn [snd] in H2.
+  destruct (shr_m mrs''); try exact I. destruct (Zle_bool e'' (emax - prec)); [lia|exact I].
+Qed.
+
+(* an integer given with exponent 0 is normalised to a float whose value is an integer *)
+Lemma binary_round_int : forall sx p,
+  match binary_round prec emax sx p 0 with
+  | S754_finite s m e => is_int (S754_finite s m e) = true
+  | _ => True
+  end.
+Proof.
+  intros sx p. unfold binary_round, shl_align.
+  set (F := fexp prec emax (Z.pos (digits2_pos p) + 0)).
+  destruct (F - 0) as [|k|d] eqn:EF.
+  - pose proof (round_aux_exp_ge sx (Z.pos p) 0 loc_Exact) as H.
+    destruct (binary_round_aux prec emax sx (Z.pos p) 0 loc_Exact); try exact I.
+    cbn [is_int]. assert (E : (0 <=? e) = true) by (apply Z.leb_le; exact H). rewrite E. reflexivity.
+  - pose proof (round_aux_exp_ge sx (Z.pos p) 0 loc_Exact) as H.
+    destruct (binary_round_aux prec emax sx (Z.pos p) 0 loc_Exact); try exact I.
+    cbn [is_int]. assert (E : (0 <=? e) = true) by (apply Z.leb_le; exact H). rewrite E. reflexivity.
+  - assert (HF : F = Z.neg d) by lia.
+    unfold binary_round_aux, shr_fexp.
+    assert (Hn : fexp prec emax (Zdigits2 (Z.pos (shift_pos d p)) + F) - F = 0).
+    { cbn [Zdigits2]. rewrite digits2_shift.
+      replace (Z.pos (digits2_pos p + d) + F) with (Z.pos (digits2_pos p) + 0) by (rewrite HF; lia).
+      fold F. lia. }
+    rewrite Hn. cbn [shr shr_record_of_loc shr_m loc_of_shr_record round_nearest_even].
+    rewrite Hn. cbn [shr shr_m].
+    destruct (Zle_bool F (emax - prec)); [|exact I].
+    cbn [is_int]. rewrite HF. cbn [Z.leb Z.compare]. unfold split_frac.
+    rewrite shift_pos_correct. cbn [Z.opp].
+    assert (E : Zpower_pos 2 d * Z.pos p = Z.pos p * 2 ^ Z.pos d) by (rewrite Z.mul_comm; reflexivity).
+    rewrite E. rewrite Z.mod_mul; [reflexivity|].
+    apply Z.pow_nonzero; lia.
+Qed.
+
+Lemma bn_int_is_int : forall z s,
+  match binary_normalize prec emax z 0 s with
+  | S754_finite s' m e => is_int (S754_finite s' m e) = true
+  | S754_zero _ => True
+  | _ => True
+  end.
+Proof.
+  intros z s. destruct z as [|p|p]; cbn [binary_normalize]; [exact I| |].
+  - pose proof (binary_round_int false p) as H. destruct (binary_round prec emax false p 0); auto.
+  - pose proof (binary_round_int true p) as H. destruct (binary_round prec emax true p 0); auto.
+Qed.
+
+(* floor, ceil and round return integers (whenever they return a finite number; they never
+   overflow, which the sweep and the correspondence run show but is not needed here) *)
+Theorem round_ops_int : forall x,
+  is_finite x = true ->
+  (is_finite (ffloor x) = true -> is_int (ffloor x) = true) /\
+  (is_finite (fceil x) = true -> is_int (fceil x) = true) /\
+  (is_finite (fround x) = true -> is_int (fround x) = true).
+Proof.
+  intros x Hx. destruct x as [s|s| |s m e]; try discriminate Hx; cbn [ffloor fceil fround].
+  - repeat split; reflexivity.
+  - destruct (0 <=? e) eqn:E.
+    + cbn [is_int]. rewrite E. repeat split; reflexivity.
+    + unfold split_frac. repeat split; intros Hf;
+        match goal with |- is_int (binary_normalize prec emax ?z 0 ?sg) = true =>
+          pose proof (bn_int_is_int z sg) as H; destruct (binary_normalize prec emax z 0 sg);
+          try discriminate Hf; [reflexivity| exact H] end.
+Qed.
